@@ -47,6 +47,9 @@ structure Hdr (α : Type) where
   cdelt2 : Option α
   cd22 : Option α
   bn : Option BN
+  /-- every other card of the header (CD1_2, CD2_1, PCi_j, CROTA2, CRVALi, CTYPEi, …) as
+      (keyword, raw value): neither function reads or writes any of them -/
+  other : List (String × String)
 
 structure Img (α : Type) where
   rows : Nat
@@ -110,7 +113,8 @@ def compress (nxOf nyOf lcxOf lcyOf : Nat → Nat → Nat → Nat) (f : Nat) (h 
                  crpix2 := (h.crpix2 + fa - R.ofNat 1) / fa,
                  cdelt1 := cdelt1, cd11 := cd11, cdelt2 := cdelt2, cd22 := cd22,
                  bn := some { cfac := f, npx1 := h.naxis1, npx2 := h.naxis2,
-                              rpx1 := lcxOf im.rows im.cols f, rpx2 := lcyOf im.rows im.cols f } },
+                              rpx1 := lcxOf im.rows im.cols f, rpx2 := lcyOf im.rows im.cols f },
+                 other := h.other },
                { rows := nx + 1, cols := ny + 1,
                  px := fun i j => im.px (srcIndex im.rows nx f i) (srcIndex im.cols ny f j) })
 
@@ -175,7 +179,7 @@ def expand (nodeRow nodeCol : Nat → Nat → Nat → Nat → Nat) (h : Hdr α) 
                    crpix1 := (h.crpix1 - one) * fa + one,
                    crpix2 := (h.crpix2 - one) * fa + one,
                    cdelt1 := cdelt1, cd11 := cd11, cdelt2 := cdelt2, cd22 := cd22,
-                   bn := none },
+                   bn := none, other := h.other },
                  { rows := bn.npx2, cols := bn.npx1,
                    px := interp2 gr gc im.rows im.cols im.px })
 
